@@ -3,10 +3,12 @@ package main
 import (
 	"fmt"
 	"strings"
+	"time"
 
 	"github.com/fluffle/goirc/client"
 
 	"verif/harness/drv"
+	"verif/harness/memconn"
 )
 
 func init() {
@@ -157,7 +159,103 @@ func capDialogue(wanted, adv []string, saslKind int, reply int, outcome string, 
 	return d.cs
 }
 
+// c19Reconnect: the same client on a second connection. What "advertised by the server" means there is what the
+// server of THAT connection advertises: a capability the previous server offered (or acknowledged) must not be asked
+// of - or reported as held on - a server that never mentioned it. Real connections: negotiate, register, drop the
+// link, connect again, advertise something else; the CAP lines of the second connection are judged by the same Spec
+// predicate as everywhere (`Spec.Caps.okAfterLS`, given only the second connection's advertisement).
+func c19Reconnect(c *Ctx) {
+	type variant struct{ wanted, first, second []string }
+	vs := []variant{
+		{[]string{"a", "b", "c"}, []string{"a", "b", "c", "x"}, []string{"a"}},
+		{[]string{"a", "b"}, []string{"a", "b"}, nil},
+		{[]string{"a", "b"}, []string{"b"}, []string{"a", "y"}},
+		{[]string{"a"}, []string{"a", "t"}, []string{"t"}},
+	}
+	for vi, v := range vs {
+		if c.Quick() && vi >= 2 && c.R.P(1, 2) {
+			continue
+		}
+		desc := fmt.Sprintf("cap negotiation on a second connection: wanted=%v, first server advertises %v (and acknowledges), second server advertises %v", v.wanted, v.first, v.second)
+		rp := map[string]interface{}{"op": "cap-reconnect", "wanted": v.wanted, "first": v.first, "second": v.second}
+		c.Journal(desc)
+		sess, err := newSession(func(cfg *client.Config) { cfg.EnableCapabilityNegotiation = true; cfg.Capabilites = v.wanted }, nil)
+		if err != nil {
+			c.Res.Inconclusive++
+			continue
+		}
+		sess.srv.SendLine(":irc.test CAP * LS :" + strings.Join(v.first, " "))
+		sess.sync(5 * time.Second)
+		var req []string
+		for _, l := range sess.srv.Lines() {
+			if strings.HasPrefix(l, "CAP REQ :") {
+				req = append(req, strings.Fields(strings.TrimPrefix(l, "CAP REQ :"))...)
+			}
+		}
+		if len(req) > 0 {
+			sess.srv.SendLine(":irc.test CAP * ACK :" + strings.Join(req, " "))
+		}
+		sess.srv.SendLine(":irc.test 001 me :Welcome me!ident@host")
+		sess.sync(5 * time.Second)
+		sess.srv.EOF()
+		if !waitFor(func() bool { return !sess.conn.Connected() }, 5*time.Second) {
+			c.Res.Inconclusive++
+			go sess.close()
+			continue
+		}
+		if err := sess.conn.Connect(); err != nil {
+			c.Res.Inconclusive++
+			continue
+		}
+		var srv2 *memconn.Conn
+		select {
+		case srv2 = <-sess.conns:
+		case <-time.After(5 * time.Second):
+			c.Res.Inconclusive++
+			continue
+		}
+		sess.srv, sess.cursor = srv2, 0
+		// before the new server has said anything, nothing can be "held"
+		var heldEarly []string
+		for _, x := range v.wanted {
+			if sess.conn.HasCapability(x) {
+				heldEarly = append(heldEarly, x)
+			}
+		}
+		sess.srv.SendLine(":irc.test CAP * LS :" + strings.Join(v.second, " "))
+		sess.sync(5 * time.Second)
+		var out []string
+		for _, l := range srv2.Lines() {
+			if strings.HasPrefix(l, "CAP REQ") || strings.HasPrefix(l, "CAP END") {
+				out = append(out, l)
+			}
+		}
+		var supportedStale []string
+		for _, x := range v.first {
+			has := false
+			for _, y := range v.second {
+				has = has || x == y
+			}
+			if !has && sess.conn.SupportsCapability(x) {
+				supportedStale = append(supportedStale, x)
+			}
+		}
+		sess.close()
+		c.Res.Traces++
+		cs := Case{Desc: desc + fmt.Sprintf(": client sent %q", out), Spec: []string{fmt.Sprintf("spec19ls %s 0 %s %s", drv.L(v.wanted), drv.L(v.second), drv.L(out))},
+			Tag: "reconnect", Key: desc, Sig: "C19-caps-survive-reconnect", Replay: rp}
+		c.RunCases([]Case{cs})
+		if len(heldEarly) > 0 {
+			c.SpecFail("spec", desc, "C19-caps-survive-reconnect", fmt.Sprintf("on the new connection, before its server has acknowledged anything, HasCapability is true for %v", heldEarly), rp)
+		}
+		if len(supportedStale) > 0 {
+			c.SpecFail("spec", desc, "C19-caps-survive-reconnect", fmt.Sprintf("SupportsCapability is true for %v, which this connection's server never advertised", supportedStale), rp)
+		}
+	}
+}
+
 func c19(c *Ctx) {
+	c19Reconnect(c)
 	var cases []Case
 	for _, w := range subsets([]string{"a", "c", "t", "userhost-in-names"}) {
 		for _, a := range subsets([]string{"a", "t", "d", "sasl", "userhost-in-names"}) {
